@@ -593,6 +593,40 @@ theorem C15_roundtrip_eol_cp1252 (fs : FS) (p text m eol tag : Str) (y e : Bytes
   C15_roundtrip_eol cp1252 cp1252_good _ cp1252_sync fs p text m eol tag y e hm hf hd hcr heol
     (by intro x hx; simp [cp1252, tableCodec] at hx) henc
 
+/-- **C15 (append round trip, every EOL — ASCII or not).**  A text saved, a second one appended with `at`,
+same encodable EOL: one stream on disk, and it loads back as the concatenation. -/
+theorem C15_append_roundtrip_eol (c : Codec) (g : c.Good) (lead : Char → Bool) (sy : c.Sync lead) (fs : FS)
+    (p s1 s2 m eol tag : Str) (y1 y2 e : Bytes) (hm : SaveMode m) (hf : Fresh fs p m)
+    (hd : EolDisjoint eol (s1 ++ s2)) (h1 : NoCR s1) (h2 : NoCR s2) (heol : c.enc eol = some e)
+    (hb : ∀ x ∈ c.bom, e.head? ≠ some x)
+    (e1 : c.enc (replace lf eol s1) = some y1) (e2 : c.enc (replace lf eol s2) = some y2) :
+    (saveFile c (saveFile c fs p (.str s1) m eol tag).1 p (.str s2) ['a', 't'] eol tag).1 p
+        = c.encode (replace lf eol (s1 ++ s2))
+    ∧ loadFile c (saveFile c (saveFile c fs p (.str s1) m eol tag).1 p (.str s2) ['a', 't'] eol tag).1 p ['t'] eol
+        = .ok (.str (s1 ++ s2)) := by
+  have hd1 := (C15_disk_bytes c fs p s1 m eol tag y1 e hm hf e1 heol).2.1
+  simp only [Codec.encode, e1, Option.map_some] at hd1
+  have e12 : c.enc (replace lf eol (s1 ++ s2)) = some (y1 ++ y2) := by
+    rw [show lf = ['\n'] from rfl, replace_lf_append]; exact g.enc_append_of e1 e2
+  have hdisk : (saveFile c (saveFile c fs p (.str s1) m eol tag).1 p (.str s2) ['a', 't'] eol tag).1 p
+      = some (c.bom ++ (y1 ++ y2)) := by
+    by_cases hemp : c.bom ++ y1 = []
+    · rw [saveFile_str c _ p s2 ['a', 't'] eol tag y2 e (by simp [SaveMode]) e2 heol]
+      have hs : startContent (saveFile c fs p (.str s1) m eol tag).1 p ['a', 't'] = [] := by
+        simp [startContent, hd1, hemp]
+      have hb' : c.bom = [] := (List.append_eq_nil_iff.mp hemp).1
+      have hy : y1 = [] := (List.append_eq_nil_iff.mp hemp).2
+      simp [FS.write, mark, hs, hb', hy]
+    · rw [(C15_append c _ p (c.bom ++ y1) s2 eol tag y2 e hd1 hemp heol e2).2.1]
+      simp
+  refine ⟨by simp [hdisk, Codec.encode, e12], ?_⟩
+  have hcr : NoCR (s1 ++ s2) := by
+    unfold NoCR at *; simp only [List.mem_append, not_or]; exact ⟨h1, h2⟩
+  by_cases hstd : isStdEol eol = true
+  · exact filesLoad_encoded c g _ p (s1 ++ s2) eol (y1 ++ y2) (std_ascii eol hstd) hd hcr e12 hdisk
+  · rw [files2_load_custom c g sy _ p _ eol (y1 ++ y2) e (by simpa using hstd) hd.1 heol hb e12 hdisk,
+      show lf = ['\n'] from rfl, replace_roundtrip eol _ hd]
+
 /-- **an EOL the encoding cannot represent**: `save_file` raises (`UnicodeEncodeError`, a `ValueError`)
 before the file is opened — even for a bytes payload — and, since fix `C15-c`, so do `load_file` and
 `load_lines` -/
@@ -719,5 +753,11 @@ example : loadFile utf8 (saveFile utf8 (fun _ => none) ['f'] (.str ['©', '\n', 
 example : loadFile utf8sig (saveFile utf8sig (fun _ => none) ['f'] (.str ['a', '\n', '\n']) ['t'] ['→', '\n'] ['=']).1
     ['f'] ['t'] ['→', '\n'] = .ok (.str ['a', '\n', '\n']) := by decide
 example : cp1252.enc ['€', '§'] = some [Char.ofNat 0x80, Char.ofNat 0xA7] := by decide +kernel
+-- append with a non-ASCII EOL (cp1252 '€' = byte 80); the hypotheses on the signature for utf-8-sig
+example : loadFile cp1252 (saveFile cp1252 (saveFile cp1252 (fun _ => none) ['f'] (.str ['a', '\n']) ['w', 't'] ['€'] ['=']).1
+    ['f'] (.str ['é', '\n']) ['a', 't'] ['€'] ['=']).1 ['f'] ['t'] ['€'] = .ok (.str ['a', '\n', 'é', '\n']) := by decide +kernel
+example : ∀ x ∈ utf8sig.bom, (utf8Enc ['§']).head? ≠ some x := by decide
+example : (['→', '\n'] : Str).head? ≠ some (Char.ofNat 0xFEFF) := by decide
+example : utf8sig.Sync utf8Lead ∧ cp1252.Sync (fun _ => true) := ⟨utf8sig_sync, cp1252_sync⟩
 
 end N0.C15
